@@ -108,6 +108,17 @@ func (cc *concClosure) resolveFuncValue(v ssa.Value, depth int, seen map[ssa.Val
 		for _, e := range x.Edges {
 			add(cc.resolveFuncValue(e, depth+1, seen))
 		}
+	case *ssa.Call:
+		// a function value made by a module function: whatever that function returns
+		if g := x.Call.StaticCallee(); g != nil && InRepo(g) && g.Blocks != nil {
+			if _, isSig := x.Type().Underlying().(*types.Signature); isSig {
+				for _, b := range g.Blocks {
+					if ret, ok := b.Instrs[len(b.Instrs)-1].(*ssa.Return); ok && len(ret.Results) == 1 {
+						add(cc.resolveFuncValue(RetVal(ret, 0), depth+1, seen))
+					}
+				}
+			}
+		}
 	case *ssa.ChangeType:
 		add(cc.resolveFuncValue(x.X, depth+1, seen))
 	case *ssa.MakeInterface:
